@@ -11,7 +11,7 @@ the meaning of the result — the oracle is the Lean model (correspondence) and,
 Every random choice comes from the rng passed in.  `corpus(rng, n)` -> list of (source, seed name, [transformation labels])."""
 import ast, copy, glob, os
 
-EXPR_POOL = ["'lit'", "b'by'", "0", "1", "1024", "2047", "0o777", "0o644", "2.5", "-1", "[]", "['a', 'b']", "[x, 1]", "()", "('a',)", "{1, 2}", "{}", "{'k': 'v'}", "{**d}", "name",
+EXPR_POOL = ["'lit'", "b'by'", "b'\\\\'", "b'share\\\\'", "b'\\\\u'", "b'/tmp/\\\\x'", "0", "1", "1024", "2047", "0o777", "0o644", "2.5", "-1", "[]", "['a', 'b']", "[x, 1]", "()", "('a',)", "{1, 2}", "{}", "{'k': 'v'}", "{**d}", "name",
              "obj.attr", "mod.sub.attr", "call()", "obj.m(1)", "'a' + b", "'a %s' % b", "f'{x}'", "'{}'.format(x)", "None", "True", "False", "...", "lambda: 0",
              "[i for i in y]", "(x if c else y)", "not x", "a[0]", "a.b(t)", "(w_ := 3)", "'/tmp/x'", "'0.0.0.0'", "''", "'SELECT * FROM t WHERE a = %s' % v", "ssl.PROTOCOL_SSLv3",
              "['METHOD_MD5']", "{'a': 1}", "'md5'", "'sha256'", "yaml.SafeLoader", "x.y.z()", "-(1)", "1 << 10", "'*'", "'ls *'", "[1][0]", "(yield_)", "await_"]
@@ -626,7 +626,7 @@ class Transformer:
             k = self.r.choice(self.kinds())
             try:
                 lab = getattr(self, k)(tree)
-            except (IndexError, ValueError, AttributeError, KeyError):
+            except (IndexError, ValueError, AttributeError, KeyError, RecursionError):
                 lab = None
             if lab:
                 labels.append(lab)
@@ -652,7 +652,7 @@ def corpus(rng, n, repo, want=None):
             tree = ast.parse(src)
             try:
                 lab = getattr(tr, k)(tree)
-            except (IndexError, ValueError, AttributeError, KeyError):
+            except (IndexError, ValueError, AttributeError, KeyError, RecursionError):
                 lab = None
             if lab:
                 labels = [lab] + tr.apply(tree, rng.choice([0, 0, 1, 2]))
@@ -671,7 +671,7 @@ def corpus(rng, n, repo, want=None):
     return out
 
 
-SWEEP_KINDS = ["'lit'", "b'by'", "7", "2.5", "None", "True", "[]", "['METHOD_MD5', 1]", "()", "('a', b)", "{1, 2}", "{}", "{'a': 1}", "name_", "obj_.attr", "call_()", "'a' + b_",
+SWEEP_KINDS = ["'lit'", "b'by'", "b'\\\\'", "b'C:\\\\Users\\\\me\\\\'", "b'\\\\x'", "b'/tmp/x\\\\N{'", "'C:\\\\tmp\\\\'", "7", "2.5", "None", "True", "[]", "['METHOD_MD5', 1]", "()", "('a', b)", "{1, 2}", "{}", "{'a': 1}", "name_", "obj_.attr", "call_()", "'a' + b_",
                "f'{x_}'", "lambda: 0", "*rest_", "[i for i in y_]", "(w_ := 3)", "a_[0]", "-1", "..."]
 
 
@@ -780,10 +780,81 @@ def run(res, ctx, d, scratch, rng, n, C, tag, owner_ids=None, crash_oracle=False
     return progs
 
 
+def config_variants(rng, k, sections=None):
+    """k settings files derived from the plugins' generated defaults, each changing ONE value of ONE section to a corner: a list emptied, cut to its first
+    element, extended; a number set to 0, to its neighbour, doubled; a flag flipped.  The section stays complete (a section lacking keys makes checks raise:
+    configuration validation, not these properties).  -> list of (label, {section: settings})"""
+    import sys
+    from bandit.core import extension_loader as el
+    out = []
+    for plg in el.MANAGER.plugins:
+        fn = plg.plugin
+        sec = getattr(fn, "_takes_config", None)
+        mod = sys.modules.get(fn.__module__)
+        if not sec or not hasattr(mod, "gen_config") or (sections and sec not in sections):
+            continue
+        base = mod.gen_config(sec)
+        if not isinstance(base, dict):
+            continue
+        for key, val in base.items():
+            alts = []
+            if isinstance(val, bool):
+                alts = [("flipped", not val)]
+            elif isinstance(val, int):
+                alts = [("zero", 0), ("plus1", val + 1), ("minus1", max(val - 1, 0)), ("doubled", val * 2)]
+            elif isinstance(val, list):
+                alts = [("empty", []), ("first-only", val[:1]), ("last-only", val[-1:]), ("extended", val + ["proj.util.helper", "/srv/tmp"]), ("reversed", val[::-1])]
+            for lab, nv in alts:
+                if nv != val:
+                    out.append(("%s.%s:%s" % (sec, key, lab), {sec: dict(base, **{key: nv})}))
+    seen, uniq = set(), []
+    for lab, cfg in out:
+        if lab not in seen:
+            seen.add(lab)
+            uniq.append((lab, cfg))
+    rng.shuffle(uniq)
+    return uniq[:k] if k else uniq
+
+
 QUICK_SWEEP_KINDS = {"Constant", "List", "Tuple", "Dict", "Set", "Name", "Attribute", "Call", "BinOp", "Starred", "JoinedStr"}
 
 
-def family(res, ctx, C, owner_ids, n_quick, n_thorough, want=None, crash_oracle=False, sweep=False):
+def run_under_configs(res, ctx, d, scratch, rng, C, owner_ids, n_progs, n_cfgs, crash_oracle=False, sections=None, want=None):
+    """the transformed-example corpus under settings files that move one value to a corner (config_variants): model vs implementation"""
+    import yaml
+    progs = corpus(rng, n_progs, C.REPO, want=want)
+    sources = [p[0].encode() for p in progs]
+    fm, blids = C.func_ids(), C.blacklist_ids()
+    for lab, cfg in config_variants(rng, n_cfgs, sections):
+        cf = scratch.fresh("settings.yaml", yaml.safe_dump(cfg).encode())
+        try:
+            real = C.batch_real_scan(scratch, sources, config_file=cf)
+        except BaseException as e:
+            res.break_("correspondence:settings", {"settings": cfg, "exception escaped the scan": "%s: %s" % (type(e).__name__, e)})
+            continue
+        model = d.ask_many([C.scan_request(s, plugin_cfg=cfg) for s in sources]) if d is not None else None
+        for i, (src, seed, labels) in enumerate(progs):
+            r = real[i]
+            res.case(("settings", lab, src), bool(r["findings"]))
+            res.count("settings:" + lab.split(":")[1])
+            if crash_oracle and (r["errors"] or r["skipped"]):
+                res.violation("a check raised on a syntactically valid file under a complete settings section", {"program": src, "settings": cfg, "crashed_checks": r["errors"], "skipped": r["skipped"]})
+            if model is None or "error" in model[i]:
+                if model is not None:
+                    res.break_("driver-error", model[i]["error"])
+                continue
+            rr, mm = {"findings": r["findings"], "errors": r["errors"]}, model[i]
+            if owner_ids is not None:
+                own = set(owner_ids)
+                rr = {"findings": [f for f in r["findings"] if f[0] in own], "errors": [e for e in r["errors"] if fm.get(e, e) in own or (e == "blacklist" and own & blids)]}
+                mm = dict(mm, findings=[f for f in mm["findings"] if f[0] in own], crashes=[c for c in mm.get("crashes", []) if fm.get(c, c) in own or (c == "blacklist" and own & blids)])
+            diff = C.compare_scan(rr, mm, blids)
+            if diff:
+                res.break_("correspondence:settings", {"program": src, "settings": cfg, "variant": lab, "seed": seed, "transformations": labels, "diff": diff})
+    res.extra["settings_variants"] = len(config_variants(rng, 0, sections))
+
+
+def family(res, ctx, C, owner_ids, n_quick, n_thorough, want=None, crash_oracle=False, sweep=False, sections=None, cfg_want=None):
     """What a per-family harness calls at the end of its run (skipped on --replay): the transformed-example corpus through model and
     implementation, compared on the family's own ids."""
     if ctx.get("replay"):
@@ -794,6 +865,8 @@ def family(res, ctx, C, owner_ids, n_quick, n_thorough, want=None, crash_oracle=
     scratch = C.Scratch()
     try:
         run(res, ctx, d, scratch, rng, n_thorough if thorough else n_quick, C, "metamorph", owner_ids=owner_ids, crash_oracle=crash_oracle, want=want, chunk=1000)
+        if sections != "none":
+            run_under_configs(res, ctx, d, scratch, rng, C, owner_ids, 200 if thorough else 60, 0 if thorough else 8, crash_oracle=crash_oracle, sections=sections, want=cfg_want)
         if sweep:
             # quick: one representative expression per node kind (11 kinds), every (callee, slot); thorough: all 25 shapes
             progs = arg_sweep(C.REPO, None if thorough else QUICK_SWEEP_KINDS)
